@@ -6680,6 +6680,128 @@ fn mode_rehandle(work: &str, seed: u64, thorough: bool) {
 }
 
 
+// ---------------------------------------------------------------------------------------------
+// run `f32probe`: the f32 arithmetic of `needs_resize` (`size_used as f32 / map_size as f32 > 0.9`,
+// `> 65 as f32 / 100.0`).  No store: the expressions are evaluated here exactly as the source writes
+// them (RESIZE_PERCENT / RESIZE_MIN_TARGET_PERCENT are private constants of lmdb.rs: 0.9_f32, 65_u128)
+// on (a) integer -> f32 conversions at the 24-bit boundary, (b) usage / map pairs around the two
+// thresholds for small and very large maps, (c) every pair found by search on which the f32 decision
+// and the exact-rational decision DIFFER; the driver answers with the exact f32 model
+// (Model/KvF32.lean).  (d) exhaustive: for EVERY map size of 1 .. 2^23 pages (< 32 GiB) the f32
+// decision equals the exact one at the two usages next to the threshold (both decisions are
+// monotone in the usage) - the theorems about `needs_resize` read the comparison as exact.
+// ---------------------------------------------------------------------------------------------
+fn f32_gt90(used: u64, map: u64) -> bool {
+	const RESIZE_PERCENT: f32 = 0.9;
+	used as usize as f32 / map as usize as f32 > RESIZE_PERCENT
+}
+fn f32_gt65(used: u64, tot: u64) -> bool {
+	const RESIZE_MIN_TARGET_PERCENT: u128 = 65;
+	used as usize as f32 / tot as usize as f32 > RESIZE_MIN_TARGET_PERCENT as f32 / 100.0
+}
+/// `needs_resize` with the environment's two numbers as arguments (same statements as lmdb.rs)
+fn f32_needs(map_size: u64, size_used: u64, alloc_chunk_size: u64) -> (bool, u64) {
+	let resize = f32_gt90(size_used, map_size) || map_size < alloc_chunk_size;
+	let new_size = if resize {
+		if map_size < alloc_chunk_size {
+			alloc_chunk_size
+		} else {
+			let mut tot = map_size - (map_size % alloc_chunk_size);
+			while f32_gt65(size_used, tot) {
+				tot += alloc_chunk_size;
+			}
+			tot
+		}
+	} else {
+		map_size
+	};
+	(resize, new_size)
+}
+
+fn mode_f32probe(seed: u64, thorough: bool) {
+	let mut out = Out::stdout();
+	let mut rng = Rng::new(seed ^ 0x6633_3270);
+	// (a) conversions
+	let mut convs: Vec<u64> = vec![0, 1, 2, 3, 65, 100, (1 << 24) - 1, 1 << 24, (1 << 24) + 1, (1 << 24) + 2, (1 << 24) + 3, (1 << 25) + 2, (1 << 25) + 6,
+		(1u64 << 53) + 1, u64::MAX, u64::MAX - (1 << 39), (1u64 << 63) + (1 << 39), (1u64 << 63) + (1 << 39) + 1];
+	for _ in 0..(if thorough { 1500 } else { 300 }) {
+		let bits = rng.range(1, 64);
+		convs.push(rng.below(1u64 << bits.min(63)) | (1u64 << (bits - 1)));
+	}
+	for n in convs.iter() {
+		out.line(&format!("kv f32-bits {}", n), &(*n as usize as f32).to_bits().to_string());
+	}
+	for _ in 0..(if thorough { 1500 } else { 300 }) {
+		let (sa, sb) = (rng.range(1, 63), rng.range(1, 63));
+		let a = rng.below(1u64 << sa) + 1;
+		let b = rng.below(1u64 << sb) + 1;
+		out.line(&format!("kv f32-div {} {}", a, b), &(a as usize as f32 / b as usize as f32).to_bits().to_string());
+	}
+	// (b) around the thresholds: map = k chunks of 1 MiB / 128 MiB, used = whole pages next to 0.9 and 0.65
+	let mut n_pairs = 0u64;
+	for chunk in [1_048_576u64, 134_217_728u64] {
+		for k in (1..=48u64).chain([100, 257, 1000, 4096, 16384, 65535, 65536, 70000, 131072, 1 << 20].into_iter()) {
+			let map = chunk.saturating_mul(k);
+			let mp = map / 4096;
+			for (pct, f) in [(90u64, f32_gt90 as fn(u64, u64) -> bool), (65u64, f32_gt65 as fn(u64, u64) -> bool)] {
+				let p0 = mp * pct / 100;
+				for d in 0..6u64 {
+					let p = (p0 + d).saturating_sub(2);
+					out.line(&format!("kv f32-gt {} {} {}", pct, p * 4096, map), &f(p * 4096, map).to_string());
+					n_pairs += 1;
+				}
+			}
+			for _ in 0..2 {
+				let used = rng.below(map / 4096 + 1) * 4096;
+				let r = f32_needs(map, used, chunk);
+				out.line(&format!("kv f32-needs {} {} {}", map, used, chunk), &format!("{} {}", r.0, r.1));
+			}
+		}
+	}
+	// (c) + (d): exhaustive comparison with the exact decision, map sizes in pages
+	let lim: u64 = 1 << 23;
+	let top: u64 = if thorough { 3 << 24 } else { (1 << 24) + (1 << 22) };
+	let (mut below, mut above, mut first90, mut first65) = (0u64, 0u64, None::<(u64, u64)>, None::<(u64, u64)>);
+	let mut shown = 0u64;
+	for mp in 1..top {
+		for (pct, f) in [(90u64, f32_gt90 as fn(u64, u64) -> bool), (65u64, f32_gt65 as fn(u64, u64) -> bool)] {
+			let p0 = mp * pct / 100;
+			for p in [p0, p0 + 1] {
+				let exact = p * 100 > pct * mp;
+				let got = f(p * 4096, mp * 4096);
+				if exact != got {
+					if mp < lim {
+						below += 1;
+					} else {
+						above += 1;
+					}
+					if pct == 90 && first90.is_none() {
+						first90 = Some((p, mp));
+					}
+					if pct == 65 && first65.is_none() {
+						first65 = Some((p, mp));
+					}
+					if shown < 400 || (mp % 9973 == 0 && shown < 1200) {
+						shown += 1;
+						out.line(&format!("kv f32-gt {} {} {}", pct, p * 4096, mp * 4096), &got.to_string());
+					}
+				}
+			}
+		}
+	}
+	if below > 0 {
+		out.raw(&format!(
+			"#STAT [f32probe] NOTE: {} page-granular (usage, map) pairs below 32 GiB on which the f32 decision of needs_resize differs from the exact one (first: 90 % {:?}, 65 % {:?}) - below 32 GiB the exact-rational reading of the theorems is not the code's",
+			below, first90, first65
+		));
+	}
+	out.raw(&format!(
+		"#STAT [f32probe] conversions={} threshold pairs={}; exhaustive over map sizes of 1..{} pages with the two usages next to each threshold: f32 decision != exact decision for {} pairs below 2^23 pages (32 GiB) and {} above (first (usage, map) in pages for 0.9: {:?} = just above 64 GiB, for 0.65: {:?} = just above 32 GiB; the f32 result then lags the exact one by less than 6e-9 of the map; {} of them sent to the driver's f32 model)",
+		convs.len(), n_pairs, top, below, above, first90, first65, shown
+	));
+	out.flush();
+}
+
 fn main() {
 	if std::env::var("VERIF_KV_LOUD").is_err() {
 		quiet_panics();
@@ -6706,6 +6828,10 @@ fn main() {
 		let kind = &args[3];
 		let n: u64 = args[4].parse().unwrap();
 		crash_child(dir, kind, n, seed);
+		return;
+	}
+	if mode == "f32probe" {
+		mode_f32probe(seed, thorough);
 		return;
 	}
 	let work = std::env::var("VERIF_WORK").expect("VERIF_WORK must name a scratch directory");
